@@ -202,3 +202,157 @@ def s_siblings(cx, rule, only=None):
                 diff = [(x, y) for x, y in zip(a, b) if x != y][:2]
                 cx.violate(rule, '%s/%s' % (label, nm.split('::', 1)[1]), '%s deviates from its sibling %s: %s' % (nm.split('::', 1)[1], other.split('::', 1)[1], diff or 'different number of statements'), fn.loc(), {'this': a, 'sibling': b})
     return n
+
+
+# ---------------------------------------------------------------------------------------------------------------------
+# A-CARRY: limb carry chains.  In a multi-limb add/subtract the carry-out of limb i is the OR of every wrap that
+# happened while limb i was combined with the other operand and the carry-in.  Folding the carry-in into one operand with
+# an unchecked add (`x.overflowing_sub(y.wrapping_add(c))`, or `y + c`) loses the wrap of `y + c` when y is all ones:
+# the flag of the outer operation no longer is the carry-out.  The rule inspects every overflowing_add/overflowing_sub
+# whose flag is used and requires that no operand is `limb (+|-) carry` computed without its own flag, unless the
+# interval engine shows the limb is below the type maximum (mask/shift results).
+
+def _is_carry(e):
+    from .prov import strip
+    e = strip(e)
+    if e.k == 'cast' and e.args:
+        a = strip(e.args[0])
+        if (a.ty or '').strip() == 'bool':
+            return True
+        if a.k == 'phi' and all((x.ty or '').strip() == 'bool' or (x.k == 'const' and x.c.get('ty') == 'bool') for x in a.args):
+            return True
+        if a.k == 'field' and a.name == '1':
+            return True
+        if a.k == 'binop' and a.name in ('BitOr', 'BitAnd', 'BitXor') and all(_is_boolish(x) for x in a.args):
+            return True
+    return False
+
+
+def _is_boolish(e):
+    from .prov import strip
+    e = strip(e)
+    return (e.ty or '').strip() == 'bool' or (e.k == 'field' and e.name == '1') or (e.k == 'const' and e.c.get('ty') == 'bool')
+
+
+def carry_chain(cx, rule, crates, floor, only=None, exclude=()):
+    from .prov import strip
+    from . import rules_l as L
+    F = cx.F
+    n = 0
+    bad = 0
+    for name, fn in sorted(F.fns.items()):
+        if not name.startswith(tuple(crates)):
+            continue
+        if (only is not None and last(name) not in only) or last(name) in exclude:
+            continue
+        blocks = [b for b, t in fn.calls() if t['fn']['k'] == 'def' and last(t['fn']['name']) in ('overflowing_add', 'overflowing_sub')]
+        if not blocks:
+            continue
+        P = Prov(fn, F, cut_loops=True)
+        fa = None
+        for b in blocks:
+            n += 1
+            args = G.call_args(fn, P, b)
+            for ai, a in enumerate(args):
+                a = strip(a)
+                inner = None
+                if a.k == 'call' and last(a.name) in ('wrapping_add', 'wrapping_sub') and len(a.args) == 2:
+                    inner = (last(a.name), a.args)
+                elif a.k == 'field' and a.name == '0' and a.args and strip(a.args[0]).k == 'binop' and strip(a.args[0]).name in ('AddWithOverflow', 'SubWithOverflow'):
+                    bb = strip(a.args[0])
+                    inner = (bb.name, bb.args)
+                elif a.k == 'binop' and a.name in ('Add', 'Sub', 'AddUnchecked', 'SubUnchecked'):
+                    inner = (a.name, a.args)
+                if inner is None:
+                    continue
+                cs = [i for i, x in enumerate(inner[1]) if _is_carry(x)]
+                if not cs:
+                    continue
+                other = inner[1][1 - cs[0]]
+                if fa is None:
+                    fa = L.FnAnalysis(L.Analyzer(F), fn)
+                hi = fa.iv(other, b)[1]
+                tr = L.ty_range((strip(other).ty or 'u64'))
+                if hi < tr[1]:
+                    continue
+                bad += 1
+                cx.violate(rule, '%s/%s' % (fn.short, inner[0]),
+                           'carry chain: operand %d of %s in %s is `limb %s carry` computed without a flag; when the limb is all ones the wrap is lost and the flag of the outer operation is not the carry-out'
+                           % (ai, last(fn.blocks[b]['term']['fn']['name']), fn.short, '+' if 'dd' in inner[0] else '-'), G.where(fn, b))
+    cx.floor(rule, 'sites', n, floor, 'overflowing_add/overflowing_sub sites examined for folded carries')
+    if not bad:
+        cx.hold(rule, 'chains', 'no overflowing_add/overflowing_sub among %d sites takes a `limb +/- carry` operand that was computed without its own flag' % n)
+
+
+# ---------------------------------------------------------------------------------------------------------------------
+# I-BARRETT: a Barrett reduction estimates the quotient with a truncated reciprocal, so x - q*M is the remainder only up
+# to a small multiple of M.  Every function that multiplies by a *_BARRETT_MU constant and then by the modulus M must
+# therefore (1) compare the difference with M and subtract M on the >= edge before the value is used further, and
+# (2) when 2*M >= 2^256 the difference does not fit 256 bits, so the correction must also be entered from a second test
+# (the limb above the 256-bit difference), i.e. a switch other than the comparison with one edge leading to the
+# subtraction of M and the other to the comparison.
+
+def barrett(cx, rule, fn, F):
+    from .prov import const_item
+    P = Prov(fn, F, cut_loops=True)
+    cn = Canon(fn, P)
+    mu = None
+    mods = []
+    for b, t in fn.calls():
+        if t['fn']['k'] != 'def' or last(t['fn']['name']) not in ('u256_mul', 'u320_mul'):
+            continue
+        for a in G.call_args(fn, P, b):
+            it = const_item(strip(a)) if strip(a).k == 'const' else None
+            if it is None:
+                s_ = cn.c(a)
+                it = s_ if re.match(r'^[A-Z0-9_]+$', s_) else None
+            if it and 'BARRETT_MU' in it:
+                mu = it
+            elif it and mu is not None:
+                mods.append((b, last(it)))
+    if mu is None or not mods:
+        cx.lost(rule, fn.short, 'no Barrett multiplication (.. * *_BARRETT_MU, then q * M) found in %s' % fn.short, fn.loc())
+        return
+    mb, M = mods[0]
+    mval = None
+    for k_, it in F.items.items():
+        if last(k_) == M:
+            from .facts import item_int
+            mval = item_int(it)
+    # (1) comparison with M after the q*M product, with a subtraction of M on the >= edge
+    cmp_sites = []
+    for b, p, te, fe in G.bool_switches(fn, P):
+        if p.kind != 'cmp' or len(p.args) != 2:
+            continue
+        sides = [cn.c(x) for x in p.args]
+        if M not in sides:
+            continue
+        op = p.op if sides[1] == M else G.SWAPOP[p.op]
+        ge_edges = {'Ge': te, 'Gt': None, 'Lt': fe, 'Le': None}.get(op)
+        if p.neg and ge_edges is not None:
+            ge_edges = fe if ge_edges is te else te
+        if not ge_edges:
+            continue
+        if b not in fn.reachable(mb):
+            continue
+        subs = [sb for sb in G.call_blocks(fn, 'u256_sub') if M in [cn.c(x) for x in G.call_args(fn, P, sb)][1:2]]
+        r = fn.reachable(ge_edges[0][1])
+        near = [sb for sb in subs if sb in r]
+        if near:
+            cmp_sites.append((b, near))
+    cx.add(rule, fn.short + '/correct', bool(cmp_sites),
+           '%s: after x - q*%s (q from %s) the difference is compared with %s and %s is subtracted on the >= edge%s' % (fn.short, M, last(mu), M, M, '' if cmp_sites else ' — NO such correction: the result is off by the modulus whenever the quotient estimate is short'),
+           G.where(fn, cmp_sites[0][0] if cmp_sites else mb))
+    if mval is not None and 2 * mval >= (1 << 256):
+        ok = False
+        for cb, near in cmp_sites:
+            for b, p, te, fe in G.bool_switches(fn, P):
+                if b == cb or b not in fn.reachable(mb):
+                    continue
+                for (e1, e2) in ((te, fe), (fe, te)):
+                    r1 = fn.reachable(e1[0][1], removed_blocks={cb})
+                    if any(sb in r1 for sb in near) and (e2[0][1] == cb or cb in fn.reachable(e2[0][1])) and not any(sb in fn.reachable(e2[0][1], removed_blocks={cb}) for sb in near):
+                        ok = True
+        cx.add(rule, fn.short + '/top-limb', ok,
+               '%s: 2*%s >= 2^256, so x - q*%s can exceed 256 bits: the correction is %sentered from a second test besides the 256-bit comparison' % (fn.short, M, M, '' if ok else 'NOT '),
+               G.where(fn, cmp_sites[0][0] if cmp_sites else mb))
